@@ -216,6 +216,10 @@ type vpKV struct {
 	faultOps  string        // "" = all operations, otherwise only this one
 	opLeft    int           // operation budget (<0: unlimited); exceeding it ends the path (counted)
 	nOps      int
+	curStart  int64
+	lastOKStart int64 // issue instant of this handle's last successful write
+	cutLat    time.Duration
+	latResp   time.Duration // bound of the response leg (0 = immediate)
 	watchFailLeft int
 }
 
@@ -227,6 +231,7 @@ func (k *vpKV) begin(op string) int {
 	if k.opLeft > 0 {
 		k.opLeft--
 	}
+	k.curStart = vpNow()
 	k.st.issued = append(k.st.issued, vpIssue{op: op, by: k.name, at: vpNow()})
 	vpEvent("issue", op, k.name)
 	vpYield(op + ".issue")
@@ -239,24 +244,35 @@ func (k *vpKV) begin(op string) int {
 			vpEvent("fault", op, f)
 		}
 	}
-	if k.st.cut && f == vpFaultNone {
-		f = vpFaultHang
-		if len(k.faults) > 0 && k.faults[0] == vpFaultErr {
-			f = vpFaultErr
-		}
-	}
 	if f == vpFaultHang {
 		vpBlockForever()
 	}
 	vpDelay(op+".req", 0, k.lat)
+	if k.st.cut && f == vpFaultNone {
+		// the store became unreachable before the request arrived: error after a while, or no answer at all
+		if vpChoose("cut."+op, 2) == 1 {
+			vpBlockForever()
+		}
+		vpDelay(op+".cuterr", 0, k.cutLat)
+		f = vpFaultErr
+	}
 	return f
 }
-func (k *vpKV) end(op string, f int) {
+func (k *vpKV) end(op string, f int) int {
 	if f == vpFaultHangAfter {
 		vpBlockForever()
 	}
 	vpYield(op + ".ack")
-	vpDelay(op+".resp", 0, k.lat)
+	vpDelay(op+".resp", 0, k.latResp)
+	if k.st.cut && f == vpFaultNone {
+		// applied, but the acknowledgement is lost
+		if vpChoose("cutack."+op, 2) == 1 {
+			vpBlockForever()
+		}
+		vpDelay(op+".cuterr", 0, k.cutLat)
+		return vpFaultAckLost
+	}
+	return f
 }
 
 func (k *vpKV) Create(key string, value []byte, opts ...interface{}) (uint64, error) {
@@ -264,8 +280,12 @@ func (k *vpKV) Create(key string, value []byte, opts ...interface{}) (uint64, er
 	if f == vpFaultErr {
 		return 0, k.st.errUnreachable()
 	}
+	start := k.curStart
 	rev, err := k.st.applyCreate(k.name, key, value)
-	k.end("create", f)
+	if err == nil {
+		k.lastOKStart = start
+	}
+	f = k.end("create", f)
 	if f == vpFaultAckLost {
 		return 0, k.st.errUnreachable()
 	}
@@ -276,8 +296,12 @@ func (k *vpKV) Update(key string, value []byte, rev uint64, opts ...interface{})
 	if f == vpFaultErr {
 		return 0, k.st.errUnreachable()
 	}
+	start := k.curStart
 	nrev, err := k.st.applyUpdate(k.name, key, value, rev)
-	k.end("update", f)
+	if err == nil {
+		k.lastOKStart = start
+	}
+	f = k.end("update", f)
 	if f == vpFaultAckLost {
 		return 0, k.st.errUnreachable()
 	}
@@ -289,7 +313,7 @@ func (k *vpKV) Get(key string) (Entry, error) {
 		return nil, k.st.errUnreachable()
 	}
 	e, err := k.st.applyGet(key)
-	k.end("get", f)
+	f = k.end("get", f)
 	if f == vpFaultAckLost {
 		return nil, k.st.errUnreachable()
 	}
@@ -301,7 +325,7 @@ func (k *vpKV) Delete(key string) error {
 		return k.st.errUnreachable()
 	}
 	err := k.st.applyDelete(k.name, key)
-	k.end("delete", f)
+	f = k.end("delete", f)
 	if f == vpFaultAckLost {
 		return k.st.errUnreachable()
 	}
